@@ -4,6 +4,7 @@ C03 — Equality is a coherent equivalence that agrees with hashing and sets.
 Property theorems only; helper lemmas live in `CtyModel/Lemmas`.
 -/
 import CtyModel.Lemmas.d03Rules
+import CtyModel.Lemmas.d03Marks
 import CtyModel.Lemmas.SetRefineRun
 import CtyModel.Lemmas.ValEqRules
 import CtyModel.Lemmas.ValEqSymm
@@ -858,6 +859,19 @@ theorem trichotomy_ints (x y : Num) (hx : x.isInt = true) (hy : y.isInt = true) 
 what fails for `w5f`/`w5p` and `w5f`/`w5c` -/
 example : Num.rawEqual w5f w4f = (Num.cmp w5f w4f == 0) ∧ Num.rawEqual w5f w5p ≠ (Num.cmp w5f w5p == 0) ∧
     Num.rawEqual w5f w5c ≠ (Num.cmp w5f w5c == 0) := by decide +kernel
+
+/-! #### `Equals` is symmetric on marked operands too (audit item 2) -/
+
+/-- `equals_symm` without its two mark-freeness hypotheses: for any two well-formed
+values of plain types, marked at the top, inside, on both sides or not at all,
+`a.Equals(b)` and `b.Equals(a)` are the same value carrying the same marks (the
+union of all marks of both operands). -/
+theorem equals_symm_marks (a b : Value) (wa : a.shaped = true) (wb : b.shaped = true) (pa : a.ty.plain = true)
+    (pb : b.ty.plain = true) : equals a b = equals b a :=
+  equals_symm_marked a b wa wb pa pb
+
+example : equals ⟨.list .string, .seq [.marked ["m"] (.s "a"), .unk .unref]⟩ ⟨.list .string, .marked ["k"] (.seq [.s "a", .s "b"])⟩
+    = .ok ⟨.bool, .marked ["k", "m"] (.unk (.nullable .f))⟩ := by decide +kernel
 
 end Values
 /-! ######################## end of SECTION «values» ######################## -/
